@@ -159,6 +159,10 @@ class ScriptedBehaviour(simnet.Behaviour):
                     st = [{"aid": c["aid"], "iid": c["iid"], "status": 0} for c in body["characteristics"]]
                     return conn.respond(req, 207, A.hap_json({"characteristics": st}))
                 return conn.respond(req, 204, b"", None)
+            if kind == "r_exc":
+                body = json.loads(req.body)
+                rows = [{"aid": c["aid"], "iid": c["iid"]} for c in body["characteristics"]]      # no "status": KeyError
+                return conn.respond(req, 207, A.hap_json({"characteristics": rows}))
             return conn.respond(req, 400, A.hap_json({"status": -70410}))
         # anything else: honest default
         return self.answer(conn, req)
@@ -371,7 +375,7 @@ def random_stimulus(r: Run, rng: random.Random):
             if k == "m1":
                 opts += [("reply", conn, "r_wrongid")] * 3
             if k == "sub":
-                opts += [("reply", conn, "r_generic")]
+                opts += [("reply", conn, "r_generic"), ("reply", conn, "r_exc")]
         if conn.open:
             opts += [("peer_close", conn, "fin"), ("peer_close", conn, "rst")]
     sd = any(e["ev"] == "call" and e["api"] == "shutdown" for e in r.events)
